@@ -191,6 +191,42 @@ def judge(root_xml, call, res=None, el=None):
             if marks(n) != marks(model):
                 out.append(("replace(formatted):markup-changed", {"expected": [t.rpartition("}")[2] for t, _a in marks(model)], "got": [t.rpartition("}")[2] for t, _a in marks(n)]}, None))
         return out, key
+    # ---- search family called on a span that sits inside the tree: the text it works on is the span's own
+    # content followed by what follows the span in its parent (its tail); positions and text_at index that string
+    inner = inner_elements(n)
+    if call.get("target") is not None and inner and not has_link:
+        t = inner[call["target"] % len(inner)]
+        el = Element.from_tag(t)
+        s = logical(t) + (t.tail or "")
+        key = (fn + "@inner", call["pkind"], "with-tail" if t.tail else "no-tail", n.tag.rpartition("}")[2])
+        try:
+            if fn == "text_at":
+                a, b = call["span"]
+                got, exp = el.text_at(a, b), (s[a:b] if b is not None else s[a:])
+            elif fn == "search_first":
+                got = el.search_first(call["pattern"])
+                m = rx.search(s)
+                exp = (m.start(), m.end()) if m else None
+                if got is not None and got == exp and el.text_at(*got) != s[got[0] : got[1]]:
+                    out.append(("text_at:does-not-return-what-search_first-found@inner", {"text": s, "span": got, "text_at": el.text_at(*got)}, None))
+            elif fn == "search_all":
+                got = el.search_all(call["pattern"])
+                exp = [(m.start(), m.end()) for m in rx.finditer(s)]
+                for a, b in got[:3]:
+                    if el.text_at(a, b) != s[a:b]:
+                        out.append(("text_at:does-not-return-what-search_all-found@inner", {"text": s, "span": [a, b], "text_at": el.text_at(a, b)}, None))
+                        break
+            elif fn == "search":
+                got = el.search(call["pattern"])
+                m = rx.search(s)
+                exp = m.start() if m else None
+            else:
+                got, exp = el.match(call["pattern"]), rx.search(s) is not None
+        except Exception as e:
+            return [(f"{fn}-raised@inner:{type(e).__name__}", {"exc": repr(e)}, None)], key
+        if got != exp:
+            out.append((f"{fn}:differs-from-re-on-the-text@inner", {"text": s, "pattern": call["pattern"], "got": got, "expected": exp}, None))
+        return out, key
     # ---- search family, judged on the ODF reading of the root
     s = odftext.project(n)
     fid = "F-P4" if has_link else None
@@ -240,7 +276,7 @@ def gen_call(rng):
     if r < 0.62:
         return {"fn": "replace", "pattern": pat, "pkind": pk, "new": None, "formatted": rng.random() < 0.4, "target": rng.choice([None, None, rng.randrange(8)])}
     fn = rng.choice(["search", "search_first", "search_all", "match", "text_at"])
-    call = {"fn": fn, "pattern": pat, "pkind": pk}
+    call = {"fn": fn, "pattern": pat, "pkind": pk, "target": rng.choice([None, None, rng.randrange(8)])}
     if fn == "text_at":
         a = rng.randint(0, 12)
         call["span"] = [a, rng.choice([None, a, a + rng.randint(0, 9)])]
